@@ -52,3 +52,48 @@ Theorem C02_layer_sorted_partial : forall lo hi t,
   Forall entry_ok (bt_elems t) /\ Forall (in_bnd lo hi) (bt_keys t).
 Proof. exact bt_elems_sorted. Qed.
 Print Assumptions C02_layer_sorted_partial.
+
+(** ** The trie level: one storage refines an ordered byte-string map (StoreProofs) *)
+From Yk Require Import SpecDefs StoreProofs.
+
+(** the abstraction of a well-formed storage is a strictly sorted association list *)
+Theorem C02_abs_sorted : forall ctr tr, WF_store ctr tr -> lex_sorted (abs_tree tr).
+Proof. exact abs_tree_sorted. Qed.
+Print Assumptions C02_abs_sorted.
+
+Theorem C02_get_refines_map : forall ctr tr k,
+  WF_store ctr tr -> bytes k -> exists o, get tr k = Some o /\
+  match smap_get (abs_tree tr) k with
+  | Some a => go_status o = St_OK /\ option_map abs_value (go_value o) = Some a
+  | None => go_status o = St_WARN_NOT_EXIST /\ go_value o = None
+  end.
+Proof. exact get_refines. Qed.
+Print Assumptions C02_get_refines_map.
+
+Theorem C02_put_refines_map : forall ctr tr k v unique,
+  WF_store ctr tr -> bytes k -> exists tr' po ctr',
+  put tr k v unique ctr = Some (tr', po, ctr') /\ WF_store ctr' tr' /\ ctr <= ctr' /\
+  match smap_get (abs_tree tr) k with
+  | None => po_status po = St_OK /\ abs_tree tr' = smap_put (abs_tree tr) k (abs_value v)
+  | Some _ => if unique then po_status po = St_WARN_UNIQUE_RESTRICTION /\ abs_tree tr' = abs_tree tr
+              else po_status po = St_OK /\ abs_tree tr' = smap_put (abs_tree tr) k (abs_value v)
+  end.
+Proof. exact put_refines. Qed.
+Print Assumptions C02_put_refines_map.
+
+Theorem C02_remove_refines_map : forall ctr tr k,
+  WF_store ctr tr -> bytes k -> exists tr' ro, remove tr k = Some (tr', ro) /\ WF_store ctr tr' /\
+  if t_null tr then ro_status ro = St_OK_ROOT_IS_NULL /\ tr' = tr
+  else match smap_get (abs_tree tr) k with
+       | Some _ => ro_status ro = St_OK /\ abs_tree tr' = smap_del (abs_tree tr) k
+       | None => ro_status ro = St_OK_NOT_FOUND /\ abs_tree tr' = abs_tree tr
+       end.
+Proof. exact remove_refines. Qed.
+Print Assumptions C02_remove_refines_map.
+
+(** a fresh storage is well formed and empty: by the three theorems above every history of
+    put / unique put / get / remove on one storage returns what the ordered map returns, and
+    after removing every key the abstraction is [] again -- the same as on a fresh storage *)
+Theorem C02_fresh_storage : forall ctr id, id < ctr -> WF_store ctr (empty_tree id) /\ abs_tree (empty_tree id) = [].
+Proof. exact empty_tree_wf. Qed.
+Print Assumptions C02_fresh_storage.
